@@ -11,7 +11,7 @@
 (*    the same order (lastfx' = fx),                                        *)
 (*  - what the specification says is reported must have been reported on    *)
 (*    the error channel (Write, LogFile) or as error result of the call.    *)
-(* Scope as FlwF.tla: synchronous write modes and cleanup, no symlink.      *)
+(* Scope as FlwF.tla: synchronous write modes and cleanup, symlink.         *)
 (***************************************************************************)
 EXTENDS FlwF, Json, IOUtils
 
@@ -40,6 +40,9 @@ Match == (~E.o) \/ LET P == Proj(dir', files', logged')
                        O == Observed(E.obs.files)
                    IN /\ P \ TwinP(P) = O \ TwinP(O)
                       /\ {<<x[1], x[2], x[3]>> : x \in TwinP(P)} = {<<x[1], x[2], x[3]>> : x \in TwinP(O)}
+\* the symlink: absent, or pointing to the family name the specification says (whether or not that file exists)
+LinkMatch == (~E.o) \/ ~lnk'.on
+             \/ IF lnk'.has THEN E.obs.linkn = <<lnk'.n.k, lnk'.n.i, lnk'.n.r, lnk'.n.z>> ELSE E.obs.link = ""
 \* the effects of the action are the recorded ones, in order
 SameFx == lastfx' = E.fx
 \* error codes on the error channel during the call (the palette message of a start is no error)
@@ -54,6 +57,7 @@ BeginReset == /\ dir' = <<>> /\ files' = <<>> /\ w' = NoWriter /\ clk' = E.t /\ 
          /\ forced' = {} /\ extgone' = {} /\ exts' = 0 /\ moved' = <<>> /\ olddirs' = <<>> /\ sws' = 0
          /\ needReopen' = FALSE /\ hist' = <<>>
          /\ nfx' = 0 /\ lostw' = {} /\ rep' = <<>> /\ lastfx' = <<>> /\ recov' = 0 /\ plan' = plan
+         /\ lnk' = [NoLink EXCEPT !.on = E.norm.link]
 StutterF == UNCHANGED fvars
 
 TraceInit == /\ l = 1 /\ on = FALSE /\ dir = <<>> /\ files = <<>> /\ w = NoWriter /\ clk = 0
@@ -63,6 +67,7 @@ TraceInit == /\ l = 1 /\ on = FALSE /\ dir = <<>> /\ files = <<>> /\ w = NoWrite
              /\ forced = {} /\ extgone = {} /\ exts = 0 /\ moved = <<>> /\ olddirs = <<>> /\ sws = 0
              /\ needReopen = FALSE /\ hist = <<>>
              /\ nfx = 0 /\ lostw = {} /\ rep = <<>> /\ lastfx = <<>> /\ recov = 0 /\ plan = [from |-> 0, burst |-> 1]
+             /\ lnk = NoLink
 
 TraceNext ==
     /\ l <= Len(Rec) /\ l' = l + 1
@@ -71,9 +76,9 @@ TraceNext ==
        /\ IF e.ev = "Begin" THEN BeginReset
           ELSE IF ~on THEN StutterF
           ELSE CASE e.ev = "Start" /\ Ok(e) -> StartF(e.append) /\ Match
-                 [] e.ev = "Log" /\ e.ret # "noop" -> WriteFL(e.len, e.fxf) /\ Match /\ SameFx /\ Reported
+                 [] e.ev = "Log" /\ e.ret # "noop" -> WriteFL(e.len, e.fxf) /\ Match /\ LinkMatch /\ SameFx /\ Reported
                  [] e.ev = "Trigger" /\ e.ret # "noop" ->
-                        \/ (TriggerFL(e.fxf) /\ Match /\ SameFx /\ Reported)
+                        \/ (TriggerFL(e.fxf) /\ Match /\ LinkMatch /\ SameFx /\ Reported)
                         \/ (TriggerNoopF /\ Match /\ SameFx)
                  [] e.ev = "Flush" /\ e.ret # "noop" ->
                         \/ (FlushFL(e.fxf) /\ Match /\ SameFx)
